@@ -231,6 +231,14 @@ def conditions(tier):
     return out
 
 
+def validate_stubs():
+    from props.bufferlib import validate_xml_facts
+    out = list(validate_xml_facts())
+    from props import c03
+    out += c03.validate_stubs()          # tree wire against ET.tostring / expat
+    return out
+
+
 def signature(cond_name, args, detail):
     if cond_name == "upload-beyond-threshold" or (cond_name.startswith("chunked/threshold")):
         return "C08:server-buffer:fragmented-message-longer-than-threshold-destroyed"
